@@ -29,8 +29,12 @@ def gen_case(rng):
     N = rng.randint(4, 60)
     nch = rng.randint(1, 5)
     chans = rng.sample(CHAN_POOL, nch)
-    deviation = rng.choice([None, None, "sr", "points", "points"]) if nch > 1 else None
+    deviation = rng.choice([None, None, None, "sr", "points", "points", "frac", "long"]) if nch > 1 else None
     dev_ch = rng.randrange(nch) if deviation else None
+    if deviation == "long":
+        # a one-sample deviation on long channels: any relative tolerance on durations would swallow it
+        N = rng.choice([60000, 100001, 250000])
+        SR = rng.choice([1000.0, 1e4, 2.4e9])
     e = regs.E()
     prog = [("ENew", e)]
     info = []
@@ -41,7 +45,21 @@ def gen_case(rng):
             sr_i = SR * rng.choice([2, 0.5, 10]) if SR != 1 else 2
         if deviation == "points" and i == dev_ch:
             n_i = N + rng.choice([1, 2, 5, -1, -2]) if N > 6 else N + rng.choice([1, 2, 5])
-        if rng.random() < 0.6:
+        if deviation == "long" and i == dev_ch:
+            n_i = N + rng.choice([1, -1, 2])
+        if deviation == "frac":
+            # durations a fraction of a sample apart (closer than half a sample) whose rounded point counts differ:
+            # the other channels last (N + 0.3) samples -> N points, the deviating one (N + 0.7) samples -> N + 1 points
+            n_i = N + 1 if i == dev_ch else N
+            segs = aligned_segments(rng, sr_i, n_i, waits=False)
+            f, a, d, nm, nn = segs[-1]
+            segs[-1] = (f, a, (nn + (-0.3 if i == dev_ch else 0.3)) / sr_i, nm, nn)
+            offgrid = True
+            r, ops = build_bp(rng, regs, sr_i, segs, markers=True)
+            prog += ops + [("EAddBp", e, c, r)]
+            info.append(("bp", c, sr_i, n_i))
+            continue
+        if rng.random() < 0.6 and deviation != "long":
             segs = aligned_segments(rng, sr_i, n_i, waits=True)
             if rng.random() < 0.3 and segs[-1][0] != "waituntil":
                 # off-grid last segment: same count, different duration (separates a tightened atol from the rule)
